@@ -305,12 +305,11 @@ Require Import Verif.Model.Consensus Verif.Model.Merkle Verif.Model.ExecSys Veri
 Require Verif.Model.ExecMerge.
 
 (* C09_cycle_no_reexecution.  C07_used_needs_quorum_cycle, clause (c), read for executed messages: in every cycle, a
-   sequence number s of chain k that EVERY commit report agreed in the GetCommitReports round (quorum f_j + 1 under some
-   chain key j) and covering s lists as executed is in no chain report of chain k of that cycle's execute report.
-   The executed list is part of a commit report's identity: "f+1 oracles observed s as executed" alone is not enough
-   when another version of the same report (without s) also reaches f_j + 1 reporters - possible with one lagging
-   honest reader plus one faulty oracle among four; then both versions are pending (on the real plugins the next
-   round then stalls: computeRanges calls the two versions overlapping, see the report of the execsys harness). *)
+   sequence number s of chain k that EVERY commit report of chain k agreed in the GetCommitReports round (quorum
+   f_dest + 1) and covering s lists as executed is in no chain report of chain k of that cycle's execute report.
+   The executed list is part of a commit report's identity.  When two versions of one report - with and without s -
+   both reach f_dest + 1 reporters (one lagging honest reader plus one faulty oracle among four), the repaired
+   getCommitReportsOutcome drops both for this cycle (F76, C09_conflicting_versions_unfixed_refuted below). *)
 Theorem C09_cycle_no_reexecution :
   forall (hash : N -> N -> N) (zero : N) (leaf_hash : ExecReport.msg -> option N)
          (enc_size : ExecReport.creport -> option N) (tree_gas : N -> N) (max_size max_gas : N)
@@ -324,8 +323,8 @@ Theorem C09_cycle_no_reexecution :
   exec_round hash zero leaf_hash enc_size tree_gas max_size max_gas nonce_key bigF dest fc2 o1 aos2 = Ok o2 ->
   exec_round hash zero leaf_hash enc_size tree_gas max_size max_gas nonce_key bigF dest fc3 o2 aos3 = Ok o3 ->
   forall k s : N,
-  (forall (x : xcommit) (j : N) (fj : Z),
-     In (j, fj) fc1 -> quorum (xcommits_of j) (f_plus_1 fj) aos1 x -> ExecReport.c_src (xc_cd x) = k ->
+  (forall (x : xcommit),
+     quorum (xcommits_of k) (f_plus_1 (EM.f_dest dest fc1)) aos1 x -> ExecReport.c_src (xc_cd x) = k ->
      PS.in_range (ExecReport.c_start (xc_cd x)) (ExecReport.c_end (xc_cd x)) s = true ->
      memN s (ExecReport.c_exec (xc_cd x)) = true) ->
   forall (r : ExecReport.creport) (mm : ExecReport.msg),
@@ -336,7 +335,10 @@ Print Assumptions C09_cycle_no_reexecution.
 (* C09_cycle_liveness: the liveness clause over one cycle.  Given a previous outcome from which a cycle starts and three
    validated observation lists of distinct oracles (at least F each), a commit report x of chain k with messages ms, and
    the message x0 = ms[i0]:
-     GetCommitReports round: x has a quorum of f_k + 1 reporters (under its own chain key) and carries no token data;
+     GetCommitReports round: x has a quorum of f_dest + 1 reporters under the key of its source chain k (a configured
+       chain; fChain is a map) and carries no token data; no OTHER report of chain k with the same root or an
+       overlapping interval has such a quorum (true whenever at most f_dest destination readers deviate from the honest
+       view; otherwise the repaired code drops both versions for this cycle, F76);
      GetMessages round: every message of x's interval has a quorum of f_k + 1 reporters and NO OTHER message for a
        sequence number of the interval has one (true whenever at most f_k observers deviate from the honest view:
        a deviating message is reported by deviating oracles only); somebody files a token-data entry for every message;
@@ -345,10 +347,13 @@ Print Assumptions C09_cycle_no_reexecution.
        oracles flag it too costly; out-of-order execution allowed (nonce 0: "nonce in order" holds trivially);
        x is provable: its messages reproduce its root, at most 256 of them;
      Filter round: every pending report of the GetMessages outcome is well formed - no messages yet, or its messages
-       reproduce its root and its token data list is as long as its message list (the exception is
-       C09_cycle_liveness_poisoned_refuted below; F13d is excluded by validation since its repair) - the report codec
-       does not fail, and the chain report of x's ready messages fits what the earlier reports leave of the size and gas
-       limits (the recorded exception F14: otherwise the greedy fallback may drop a message).
+       reproduce its root and its token data list is as long as its message list.  This stays a hypothesis: it is a fact
+       about the DESTINATION (an agreed report has f_dest + 1 reporters, so at least one honest destination reader saw it
+       committed, and the commit plugin commits true roots: C04), not about observation lists.  Before the repairs of
+       F75 at most F faulty oracles could break it (C09_cycle_liveness_poisoned_unfixed_refuted); F13d is excluded by
+       validation since its repair.  The report codec does not fail, and the chain report of x's ready messages fits
+       what the earlier reports leave of the size and gas limits (the recorded exception F14: otherwise the greedy
+       fallback may drop a message).
    Then all three rounds succeed and x0 is in a chain report of chain k of the Filter round's execute report -
    whatever else the (<= f per item) deviating oracles put into their observations.  F55 (no GetMessages observation at
    all for an oversized report) is outside: the observation lists are inputs here. *)
@@ -365,13 +370,16 @@ Theorem C09_cycle_liveness :
   key_functional aos1 -> key_functional aos2 ->
   (bigF <= Z.of_nat (length aos1))%Z -> (bigF <= Z.of_nat (length aos2))%Z -> (bigF <= Z.of_nat (length aos3))%Z ->
   o_state prev = 0 \/ o_state prev = 1 \/ o_state prev = 4 ->
-  forall (x : xcommit) (ms : list xmsg) (i0 : nat) (x0 : xmsg) (T0 : list EM.tok) (f1 f2 : Z) (t : Merkle.tree),
+  forall (x : xcommit) (ms : list xmsg) (i0 : nat) (x0 : xmsg) (T0 : list EM.tok) (f2 : Z) (t : Merkle.tree),
   let cd0 := xc_cd x in
   let k := ExecReport.c_src cd0 in
   let lo := ExecReport.c_start cd0 in
   let hi := ExecReport.c_end cd0 in
   let m0 := xm_msg x0 in
-  In (k, f1) fc1 -> 0 < f_plus_1 f1 -> quorum (xcommits_of k) (f_plus_1 f1) aos1 x ->
+  In k (EM.keys fc1) -> NoDup (EM.keys fc1) -> 0 < f_plus_1 (EM.f_dest dest fc1) ->
+  quorum (xcommits_of k) (f_plus_1 (EM.f_dest dest fc1)) aos1 x ->
+  (forall y : xcommit, quorum (xcommits_of k) (f_plus_1 (EM.f_dest dest fc1)) aos1 y ->
+                       conflicts (xc_cd x) (xc_cd y) = true -> y = x) ->
   ExecReport.c_td cd0 = [] ->
   alookup k fc2 = Some f2 -> (forall f : Z, In (k, f) fc2 -> f = f2) -> 0 < f_plus_1 f2 ->
   ms <> [] ->
@@ -433,37 +441,58 @@ Theorem C09_cycle_liveness_nonvacuous :
 Proof. exact SysLive.cycle_liveness_example. Qed.
 Print Assumptions C09_cycle_liveness_nonvacuous.
 
-(* The well-formedness hypothesis is needed, and <= F faulty oracles can break it (finding candidate; replay:
-   VERIF_XS_PROBE=poison / poison1 on the execsys harness).  Commit reports are destination data, but
-   mergeCommitObservations counts them at the f of the chain KEY they are filed under, ValidateObservation checks for
-   commit reports neither the observer's role (F07) nor that the key is the report's own source chain, and ONE pending
-   report that does not reproduce its root makes report.Builder.Add fail, and with it the Outcome of every oracle.
-   Witness: seven oracles, F = 2, f(chain 1) = f(destination) = 2, f(chain 2) = 1; five honest oracles with one view in
-   all three rounds; the two faulty ones - which do not even read chain 2 - file a forged commit report for chain 1
-   under the key of chain 2 in the first round and behave honestly afterwards.  The real report keeps its quorum and is
-   pending, but the forged one is pending too, gets the real messages attached, and the Filter round fails - in this
-   round and, since a failed round commits nothing, in every later one: execution to the destination stops for all
-   sources.  (SysPoison.poisoned_getmessages: on the real plugins the stall starts one round earlier, because the honest
-   GetMessages observation repeats both pending reports under one key and is refused by ValidateObservation.) *)
-Theorem C09_cycle_liveness_poisoned_refuted :
+(* F75 (repaired).  On the functions as they were ([exec_round_unfixed]: commit reports agreed at the f of the chain KEY
+   they are filed under; validation without validateCommitReportKeys), at most F faulty oracles broke the well-formedness
+   hypothesis.  Witness: seven oracles, F = 2, f(chain 1) = f(destination) = 2, f(chain 2) = 1; five honest oracles with
+   one view in all three rounds; the two faulty ones - which do not even read chain 2 (commit reports are not
+   role-checked: F07) - file a forged commit report for chain 1 under the key of chain 2 in the first round and behave
+   honestly afterwards.  The real report keeps its quorum and is pending, but the forged one is pending too, gets the
+   real messages attached, and the Filter round fails - in this round and, since a failed round commits nothing, in
+   every later one: execution to the destination stops for all sources.  (SysPoison.poisoned_getmessages: on the real
+   plugins the stall started one round earlier, because the honest GetMessages observation repeats both pending reports
+   under one key and is refused by ValidateObservation; replay VERIF_XS_PROBE=poison / poison1 on the unpatched tree.)
+   With the repairs the faulty observations are refused, and even unrefused the forged report (two reporters, below
+   f_dest + 1 = 3) is not agreed. *)
+Theorem C09_cycle_liveness_poisoned_unfixed_refuted :
   exists (sup : N -> list N) (bigF : Z) (dest : N) (fc : list (N * Z)) (aos1 aos2 aos3 : list sao) (o1 o2 : outcome)
          (x : xcommit) (honest faulty : list N),
-    let Round := exec_round SysEx.h 999 SysEx.leaf SysEx.enc SysEx.tg 1000000 1000000 SysEx.nkey in
+    let RoundU := exec_round_unfixed SysEx.h 999 SysEx.leaf SysEx.enc SysEx.tg 1000000 1000000 SysEx.nkey in
     NoDup (map fst aos1) /\ NoDup (map fst aos2) /\ NoDup (map fst aos3) /\
-    sys_validated sup dest fc aos1 /\ sys_validated sup dest fc aos2 /\ sys_validated sup dest fc aos3 /\
+    sys_validated_nokeys sup dest fc aos1 /\ sys_validated_nokeys sup dest fc aos2 /\ sys_validated_nokeys sup dest fc aos3 /\
     key_functional aos1 /\ key_functional aos2 /\
     (exists ob1 ob2 ob3, forall o, In o honest -> In (o, ob1) aos1 /\ In (o, ob2) aos2 /\ In (o, ob3) aos3) /\
     map fst aos1 = honest ++ faulty /\
     (Z.of_nat (length faulty) <= bigF)%Z /\
     alookup (ExecReport.c_src (xc_cd x)) fc = Some bigF /\ alookup dest fc = Some bigF /\
     quorum (xcommits_of (ExecReport.c_src (xc_cd x))) (f_plus_1 bigF) aos1 x /\
-    Round bigF dest fc out_init aos1 = Ok o1 /\ In (xc_cd x) (o_pending o1) /\
-    Round bigF dest fc o1 aos2 = Ok o2 /\
-    Round bigF dest fc o2 aos3 = Err /\
-    forall n, exec_run SysEx.h 999 SysEx.leaf SysEx.enc SysEx.tg 1000000 1000000 SysEx.nkey bigF dest o2
-                       (repeat (fc, aos3) n) = o2.
-Proof. exact cycle_liveness_poisoned_refuted. Qed.
-Print Assumptions C09_cycle_liveness_poisoned_refuted.
+    RoundU bigF dest fc out_init aos1 = Ok o1 /\ In (xc_cd x) (o_pending o1) /\
+    RoundU bigF dest fc o1 aos2 = Ok o2 /\
+    RoundU bigF dest fc o2 aos3 = Err /\
+    (forall n, exec_run_unfixed SysEx.h 999 SysEx.leaf SysEx.enc SysEx.tg 1000000 1000000 SysEx.nkey bigF dest o2
+                       (repeat (fc, aos3) n) = o2) /\
+    (forall o, In o faulty -> exists ob, In (o, ob) aos1 /\ EM.validate (sup o) dest fc (to_obs ob) = false) /\
+    (forall o, exec_round SysEx.h 999 SysEx.leaf SysEx.enc SysEx.tg 1000000 1000000 SysEx.nkey bigF dest fc out_init aos1 = Ok o ->
+               o_pending o = [xc_cd x]).
+Proof. exact cycle_liveness_poisoned_unfixed_refuted. Qed.
+Print Assumptions C09_cycle_liveness_poisoned_unfixed_refuted.
+
+(* F76 (repaired).  Four oracles, f = 1: oracles 0 and 1 see message 5 of report [5, 6] executed, oracle 2 reads the
+   destination one cycle late and the faulty oracle 3 seconds it.  Both versions of the report have f_dest + 1 = 2
+   reporters (every observation passes the validation).  Before the repair both were pending; the GetMessages observation
+   of every honest oracle repeats both under one key, so it is refused by every oracle (validateObservedSequenceNumbers;
+   on the real plugins Observation itself already fails in computeRanges: replay VERIF_XS_PROBE=split on the unpatched
+   tree), no observation is accepted and the Outcome fails from then on.  The repaired getCommitReportsOutcome drops
+   both versions: the outcome is empty and the next round is a GetCommitReports round again. *)
+Theorem C09_conflicting_versions_unfixed_refuted :
+  NoDup (map fst SysSplit.aosS) /\ sys_validated SysEx.sup 9 SysEx.fc SysSplit.aosS /\ key_functional SysSplit.aosS /\
+  quorum (xcommits_of 1) (f_plus_1 1) SysSplit.aosS SysEx.xv /\ quorum (xcommits_of 1) (f_plus_1 1) SysSplit.aosS SysEx.x /\
+  SysSplit.RoundU 1 9 SysEx.fc out_init SysSplit.aosS = Ok SysSplit.o1u /\
+  map ExecReport.c_exec (o_pending SysSplit.o1u) = [[]; [5]] /\
+  (forall o, EM.validate (SysEx.sup o) 9 SysEx.fc (to_obs SysSplit.regrouped) = false) /\
+  SysSplit.RoundU 1 9 SysEx.fc SysSplit.o1u [] = Err /\
+  SysEx.Round 1 9 SysEx.fc out_init SysSplit.aosS = Ok (mkOut 1 [] []).
+Proof. exact SysSplit.split_view. Qed.
+Print Assumptions C09_conflicting_versions_unfixed_refuted.
 
 (* histories: for every history of rounds in which a GetCommitReports round, a GetMessages round and a Filter round
    succeed with any number of failed rounds in between (a failed Outcome commits nothing), the history ends in the Filter
